@@ -28,6 +28,7 @@ type task struct {
 }
 
 type taskResult struct {
+	Poisoned bool   `json:"x,omitempty"` // the worker must be replaced (code under test left a spinning goroutine behind)
 	Stats  Stats    `json:"s"`
 	Hashes []uint64 `json:"h,omitempty"`
 	Err    string   `json:"e,omitempty"`
@@ -89,6 +90,7 @@ func Serve(body Body, opt Options, in io.Reader, out io.Writer) {
 			e.st.States = int64(len(e.states))
 			e.st.Exhaustive = !e.capped.Load()
 			res.Stats = e.st
+			res.Poisoned = e.poisoned.Load()
 			res.Hashes = make([]uint64, 0, len(e.states))
 			for h := range e.states {
 				res.Hashes = append(res.Hashes, h)
@@ -98,6 +100,9 @@ func Serve(body Body, opt Options, in io.Reader, out io.Writer) {
 			return
 		}
 		wr.Flush()
+		if res.Poisoned {
+			os.Exit(0)
+		}
 	}
 }
 
@@ -223,12 +228,25 @@ func RunSharded(body Body, opt Options, argv []string, env []string) Stats {
 		wg.Add(1)
 		go func() {
 			defer wg.Done()
-			cmd := exec.Command(argv[0], argv[1:]...)
-			cmd.Env = append(os.Environ(), env...)
-			cmd.Stderr = os.Stderr
-			in, _ := cmd.StdinPipe()
-			outp, _ := cmd.StdoutPipe()
-			if err := cmd.Start(); err != nil {
+			type proc struct {
+				cmd *exec.Cmd
+				in  io.WriteCloser
+				enc *json.Encoder
+				dec *json.Decoder
+			}
+			start := func() (*proc, error) {
+				cmd := exec.Command(argv[0], argv[1:]...)
+				cmd.Env = append(os.Environ(), env...)
+				cmd.Stderr = os.Stderr
+				in, _ := cmd.StdinPipe()
+				outp, _ := cmd.StdoutPipe()
+				if err := cmd.Start(); err != nil {
+					return nil, err
+				}
+				return &proc{cmd, in, json.NewEncoder(in), json.NewDecoder(bufio.NewReaderSize(outp, 1<<20))}, nil
+			}
+			p, err := start()
+			if err != nil {
 				mu.Lock()
 				werrs = append(werrs, "cannot start worker: "+err.Error())
 				mu.Unlock()
@@ -236,14 +254,12 @@ func RunSharded(body Body, opt Options, argv []string, env []string) Stats {
 				}
 				return
 			}
-			enc := json.NewEncoder(in)
-			dec := json.NewDecoder(bufio.NewReaderSize(outp, 1<<20))
 			dead := false
 			for t := range tasks {
 				if dead {
 					continue
 				}
-				if err := enc.Encode(&t); err != nil {
+				if err := p.enc.Encode(&t); err != nil {
 					mu.Lock()
 					werrs = append(werrs, "worker died: "+err.Error())
 					mu.Unlock()
@@ -251,7 +267,7 @@ func RunSharded(body Body, opt Options, argv []string, env []string) Stats {
 					continue
 				}
 				var r taskResult
-				if err := dec.Decode(&r); err != nil {
+				if err := p.dec.Decode(&r); err != nil {
 					mu.Lock()
 					werrs = append(werrs, fmt.Sprintf("worker died on prefix %v: %v", t.Prefix, err))
 					mu.Unlock()
@@ -259,9 +275,20 @@ func RunSharded(body Body, opt Options, argv []string, env []string) Stats {
 					continue
 				}
 				merge(&r)
+				if r.Poisoned {
+					// the worker retired itself after reporting; the rest of its subtree is not explored
+					e.capped.Store(true)
+					p.in.Close()
+					_ = p.cmd.Wait()
+					if p, err = start(); err != nil {
+						dead = true
+					}
+				}
 			}
-			in.Close()
-			_ = cmd.Wait()
+			if p != nil {
+				p.in.Close()
+				_ = p.cmd.Wait()
+			}
 		}()
 	}
 	var dl int64
